@@ -407,7 +407,7 @@ func (h *H) monitor() {
 			jr := h.jobByTag[t]
 			if len(jr.Ends) > 0 {
 				ended++
-			} else if jr.Rejected || jr.anyClose() || h.maybePurged(jr) || !jr.Accepted || jr.Q.Closed {
+			} else if jr.Rejected || jr.anyClose() || h.maybePurged(jr) || !jr.Accepted || jr.Q.Closed || len(h.QCloses) > 0 {
 				gone++
 			}
 		}
@@ -538,6 +538,16 @@ func (h *H) restCounts(w *W) {
 }
 
 func (h *H) anyCallInProgress() bool { return len(h.inCall) > 0 }
+
+// qcloseBegan: a Close of the queue had been called before seq (items of a batch may then have been rejected).
+func (h *H) qcloseBegan(q *Q, seq int) bool {
+	for _, c := range h.QCloses {
+		if c.W == q.W && c.Arg == q.Idx && c.Call < seq {
+			return true
+		}
+	}
+	return false
+}
 
 func (h *H) batchSure(jr *JobRec) bool { return jr.Q != nil && !jr.Q.Closed && len(h.QCloses) == 0 }
 
@@ -759,7 +769,7 @@ func (h *H) judgeHandles(crashed bool) {
 		case "BatchWait":
 			b := h.Batches[c.Batch]
 			for _, t := range b.Tags {
-				if !h.releaseCause(h.jobByTag[t], c.Ret) && !b.Q.Closed {
+				if !h.releaseCause(h.jobByTag[t], c.Ret) && !h.qcloseBegan(b.Q, c.Ret) {
 					h.viol("C05", "C05.early", "batch Wait returned before every item finished")
 				}
 			}
